@@ -28,35 +28,8 @@ CUSTOM = {
     "c3d": {"type": "custom", "layers": [[0.6, 0.15, 0.31, 0.46, 300.0, 100], [0.4, 0.39, 0.54, 0.55, 35.0, 100], [0.2, 0.12, 0.26, 0.43, 600.0, 100]]},
     "c2t": {"type": "custom", "texture": [[0.7, 30, 30, 2.0, 100], [0.3, 60, 10, 1.0, 100]]},
 }
-BUILTIN_LAYERS = {"Paddy": [0.5, 1.5], "ac_TunisLocal": [0.3, 1.7]}
+from ..refmodels import BUILTIN_LAYERS, layer_thicknesses, reference_layer_map  # noqa: E402
 
-
-def layer_thicknesses(ss):
-    """Layer thicknesses as the user gave them (independent of Soil.add_layer)."""
-    if ss.get("layers"):
-        return [float(l[0]) for l in ss["layers"]]
-    if ss.get("texture"):
-        return [float(l[0]) for l in ss["texture"]]
-    return BUILTIN_LAYERS.get(ss["type"])
-
-
-def reference_layer_map(bottoms, thick):
-    """Layers are stacked from the surface: a compartment belongs to the first layer that still contains its bottom, each layer
-    being measured from the bottom of the last compartment of the layer above; compartments below all layers take the last layer."""
-    lay = np.zeros(len(bottoms), dtype=int)
-    last = 0.0
-    for k, t in enumerate(thick, start=1):
-        idx = [i for i in range(len(bottoms)) if lay[i] == 0 and round(bottoms[i], 2) <= round(last + t, 2) + 1e-9]
-        for i in idx:
-            lay[i] = k
-        if idx:
-            last = bottoms[idx[-1]]
-    cur = 0
-    for i in range(len(lay)):
-        if lay[i] == 0:
-            lay[i] = cur
-        cur = lay[i]
-    return lay
 IWCS = ["PropLayer", "PctLayer", "NumLayer", "PropDepth", "PctDepth", "NumDepth", "PropLayerRev", "PctLayerMixed", "PropDepthRev", "PctDepthMixed", "NumLayerMixed"]
 
 
@@ -98,8 +71,17 @@ def iwc_spec(kind, nlayers):
     raise ValueError(kind)
 
 
-def all_soils(tier):
+def lattice_soils():
+    out = {}
+    for t1, t2 in itertools.product(range(1, 10), range(1, 10)):
+        out[f"L3_{t1}_{t2}"] = {"type": "custom", "layers": [[t1 / 10.0, 0.30, 0.44, 0.50, 40.0, 100], [t2 / 10.0, 0.08, 0.16, 0.38, 1500.0, 100], [4.0, 0.23, 0.39, 0.52, 20.0, 100]]}
+    return out
+
+
+def all_soils(tier, lattice=True):
     soils = {n: {"type": n} for n in SOILS15}
+    if lattice:
+        soils.update(lattice_soils())
     soils.update(CUSTOM)
     tx = texture_soils()
     if tier == "quick":
@@ -109,7 +91,7 @@ def all_soils(tier):
 
 
 def scenarios(tier, seed=0):
-    soils = all_soils(tier)
+    soils = all_soils(tier, lattice=False)
     q = tier == "quick"
     for si, (sn, ss) in enumerate(soils.items()):
         for di, dz in enumerate(DZS):
@@ -122,6 +104,12 @@ def scenarios(tier, seed=0):
                     if not q and (si + di + zi + ki) % 2 != 0 and not sn.startswith("c") and zi not in (0, 9):
                         continue
                     yield {"soil": sn, "dz": dz, "zmax": z, "iwc": kind}
+    # the complete lattice of the first two layer thicknesses (0.1 .. 0.9 m) of a three-layer soil: every float-unlucky boundary sum
+    for t1, t2 in itertools.product(range(1, 10), range(1, 10)):
+        if q and (t1 + t2) % 2:
+            continue
+        for dz in ("deep30", "nonuni", "d30", "d12"):
+            yield {"soil": f"L3_{t1}_{t2}", "dz": dz, "zmax": 1.0, "iwc": "PropLayer"}
     # a Soil object that an earlier model (with a shallower-rooted crop) has already initialised
     for si, (sn, ss) in enumerate(soils.items()):
         if ss["type"] == "ac_TunisLocal" or (q and si % 3):
